@@ -102,8 +102,8 @@ def classify(recs):
         if "help" in o:
             r["verdict"] = "skip"
             continue
-        if ref is not None and dup_option(ref["toks"]):
-            r["verdict"] = "skip"       # the same option given twice: the documentation is silent
+        if ref is not None and dup_option(ref["toks"]) and not (ref["matches"] and "rep-has-option" in r["classes"]):
+            r["verdict"] = "skip"       # the same option given twice where the usage does not repeat it: the documentation is silent
             continue
         racc = ref is not None and len(ref["matches"]) > 0
         if "ok" in o:
